@@ -398,7 +398,7 @@ class Tensor:
         # own copy in this tensor's dtype: the caller's array is never stored nor written to
         seed = np.array(grad.data, dtype=self.dtype)
         if self.is_leaf and self._grad is not None:
-            self._grad = self._grad + seed
+            self._grad = np.asarray(self._grad + seed)   # (0-d + 0-d is a NumPy scalar, not an array)
         else:
             self._grad = seed
         for i, node in enumerate(reversed(ordered_nodes)):
